@@ -1627,6 +1627,13 @@ func (c *compiler) compileCallInternal(
 				c.deleteCodeInfo(name)
 			case 3: // optimize one instruction argument (opscope, opX, opret)
 				j := len(c.codes) - 4
+				if c.codes[j+1].v.([3]int)[1] > 0 {
+					// the argument owns a variable (label), so it needs its scope
+					c.append(&code{op: opload, v: v})
+					c.append(&code{op: oppushpc, v: pc})
+					c.append(&code{op: opcallpc})
+					break
+				}
 				if c.codes[j+2].op == opconst {
 					c.codes[j] = &code{op: oppush, v: c.codes[j+2].v}
 					c.codes = c.codes[:j+1]
